@@ -17,5 +17,6 @@ pub mod c16;
 pub mod c17;
 pub mod c18;
 pub mod c19;
+pub mod c20;
 
 pub fn c13_perm(seed: u32, n: usize) -> Vec<usize> { c13::perm_of(seed, n) }
